@@ -51,6 +51,38 @@ def construct_paths(repo, cls):
     return cont, done
 
 
+def optional_attribute_rule(chk, repo, clause):
+    """Attributes a plane may leave unset (their constructor default is None: focal length, pixel scale, diameter) are handed
+    on as they are inside `multiply`: a conversion (`float(...)`, `int(...)`, arithmetic) raises TypeError for the default and
+    turns an allowed product into a refusal."""
+    import ast as _ast
+    bad, n = [], 0
+    for cls in repo.modules['plane'].classes.values():
+        fm = cls.methods.get('multiply') if isinstance(cls.methods, dict) else None
+        init = cls.find_method('__init__')
+        if fm is None or init is None:
+            continue
+        a = init.node.args
+        pos = a.posonlyargs + a.args
+        optional = {x.arg for x, d in zip(pos[len(pos) - len(a.defaults):], a.defaults) if isinstance(d, _ast.Constant) and d.value is None}
+        optional |= {x.arg for x, d in zip(a.kwonlyargs, a.kw_defaults) if isinstance(d, _ast.Constant) and d.value is None}
+        optional &= {'focal_length', 'pixelscale', 'diameter'}
+        if not optional:
+            continue
+        n += 1
+        for node in _ast.walk(fm.node):
+            if isinstance(node, _ast.Call) and isinstance(node.func, _ast.Name) and node.func.id in ('float', 'int', 'complex') and node.args:
+                arg = node.args[0]
+                if isinstance(arg, _ast.Attribute) and isinstance(arg.value, _ast.Name) and arg.value.id == 'self' and arg.attr in optional:
+                    guarded = any(isinstance(t, _ast.If) and node in list(_ast.walk(t)) and 'None' in (fm.module.segment(t.test) or '')
+                                  for t in _ast.walk(fm.node))
+                    if not guarded:
+                        bad.append(f'{fm.key}: `{fm.module.segment(node)}` at {fm.loc(node)}')
+    chk.ob(clause, 'D-flow', 'lentil.plane', 'optional plane attributes (default None) are not converted inside multiply',
+           (not bad) if n else None, '; '.join(bad[:2]) + (': a plane built without that attribute cannot be applied although the type table allows it'
+                                                             if bad else f'{n} plane class(es) with optional attributes'), '')
+
+
 def defined_attribute_rule(chk, repo, clause):
     """A plane needs no pixel scale to be applied (scalar and un-sampled planes have none): once the type table has
     accepted the pair, `multiply` evaluates only attributes that are defined for such a plane.  Which attributes are not
@@ -407,6 +439,7 @@ def run(chk, repo, tier):
     from .c07 import product_shape_rule
     product_shape_rule(chk, repo, 'C08-f')
     defined_attribute_rule(chk, repo, 'C08-f')
+    optional_attribute_rule(chk, repo, 'C08-f')
     # ... nor is a compatible pair refused for its sampling: equal (row, col) pixel scales multiply
     from .c07 import pixelscale_guard_rule as _pixelscale_guard_rule
     _pixelscale_guard_rule(chk, repo, 'C08-f')
